@@ -629,12 +629,42 @@ def sym_value(e, assumed, env):
     return ("sym", S(e))
 
 
-def simulate(f, path):
+def const_eval(e, ints, assumed):
+    """Integer constant of an expression given known integer locals/parameters (NULL = 0); None if unknown."""
+    v = cval(e)
+    if v is not None:
+        return v
+    e0 = strip(e)
+    if e0 is None:
+        return None
+    if e0["k"] == "var" and e0["name"] in ints:
+        return ints[e0["name"]]
+    if e0["k"] == "cond":
+        c = eval_bool(e0["c"], assumed, {})
+        a, b = const_eval(e0["a"], ints, assumed), const_eval(e0["b"], ints, assumed)
+        if c is True:
+            return a
+        if c is False:
+            return b
+        if a is not None and a == b:
+            return a
+    if e0["k"] == "bin" and e0["op"] in ("==", "!="):
+        l, r = const_eval(e0["l"], ints, assumed), const_eval(e0["r"], ints, assumed)
+        if l is not None and r is not None:
+            return int((l == r) == (e0["op"] == "=="))
+    if e0["k"] == "un" and e0["op"] == "!":
+        x = const_eval(e0["e"], ints, assumed)
+        if x is not None:
+            return int(not x)
+    return None
+
+
+def simulate(f, path, preset=None):
     """Walk an enumerated path keeping symbolic values of boolean locals (copy propagation).  Returns
     (feasible, env, assumed, events) — infeasible when a branch on a local contradicts its propagated value."""
     import re as _re
     env = {}
-    ints = {}          # integer locals holding a known constant (constant propagation along the path)
+    ints = dict(preset or {})   # integer locals/parameters holding a known constant (constant propagation along the path)
     assumed = {}
     evs = []
     for (bid, at) in path:
@@ -644,10 +674,15 @@ def simulate(f, path):
                 name = S(ev.lhs)
                 if ev.kind in ("decl", "assign") and (ev.kind == "decl" or ev.e["op"] == "=") and ev.rhs is not None:
                     t = (ev.e.get("t") if ev.kind == "decl" else strip(ev.lhs).get("t", "")) or ""
-                    if "bool" in t or "_Bool" in t:
-                        env[name] = sym_value(ev.rhs, assumed, env)
-                    elif cval(ev.rhs) is not None:
-                        ints[name] = cval(ev.rhs)
+                    cv_ = const_eval(ev.rhs, ints, assumed)
+                    if ("bool" in t or "_Bool" in t) and cv_ is None:
+                        ints.pop(name, None)
+                        for k_ in [k_ for k_ in env if False]:
+                            pass
+                        env[name] = sym_value(ev.rhs, assumed, {**{k: bool(v) for k, v in ints.items()}, **env})
+                    elif cv_ is not None:
+                        ints[name] = cv_
+                        env.pop(name, None)
                     else:
                         ints.pop(name, None)
                 else:
